@@ -252,7 +252,8 @@ def _attr_from_stack(stack):
       for kind, val in s[1]:
         if kind == "color":
           color = val
-        else:
+        elif val[3] != 0:
+          # every element paints its own background over its ancestors': a fully transparent one leaves the ancestor's visible
           bg = val
   return CharAttr(bold, italic, under, color, bg)
 
